@@ -139,7 +139,12 @@ extend enum E @a { V @b W }
 extend input In @a { x: Int = 1 @c }
 schema @s { query: Q mutation: M subscription: S }
 '''
-VALUE_CORPUS = ['{a: [1, -2.5e3, "s\\n\\u00e9\\u{1F600}", """b\n  l""", true, false, null, E, $v, {b: [], c: {}}]}', "[[1], [[2]], []]", "$v", '"x"']
+# every lexical form once (signed exponents, all escape forms, block strings, comments, spread):
+# short enough that every truncation point and substitution is run in the quick tier
+LEXICAL_DOC = ('{ f(a: -1.5e+10, b: 2E-3, c: 0.0e0, g: 1e3, d: "\\"\\\\\\/\\b\\f\\n\\r\\t\\u00e9\\uD83D\\uDE00\\u{1F600}",'
+               ' e: """x\\"""y\n z""") ... @d(v: $v) { x } #c\u00e9\n ...F }')
+VALUE_CORPUS = ['{a: [1, -2.5e3, "s\\n\\u00e9\\u{1F600}", """b\n  l""", true, false, null, E, $v, {b: [], c: {}}]}', "[[1], [[2]], []]", "$v", '"x"',
+                "-2.5e+3", "1E-7", "0.5e+0", '"\\uD83D\\uDE00"', '"\\u{10FFFF}"', '"\\t\\"', '"""\\""" """']
 TYPE_CORPUS = ["[[A!]!]", "A!", "[A]", "[[[[A]]]]!"]
 COORD_CORPUS = ["A", "A.b", "A.b(c:)", "@d", "@d(a:)", "Query.field(arg:)"]
 
@@ -158,6 +163,7 @@ def _corpus_docs():
                                                               schema_description=True, input_value_deprecation=True, one_of=True)))
     except Exception:  # noqa: BLE001
         pass
+    docs.append(("lexical", LEXICAL_DOC))
     docs.append(("frag_args", FRAG_ARGS_DOC))
     docs.append(("dir_on_dir", DIR_ON_DIR_DOC))
     for q in c01_pipeline.VALID[:12]:
